@@ -18,7 +18,7 @@ From AV Require Import Base.Bytes Base.Outcome Hash.HashModel Spec.SpecOps Spec.
   Tree.SpecWF Tree.SpecWFReal Tree.RangeProofsCalc Tree.RangeProofsOps Tree.RangeProofsLoader Tree.RangeProofsReal Tree.RangeProofsParser Tree.RangeProofsNamed Tree.CopyProofsDefs Tree.RangeProofsInv Tree.Project Tree.RangeProofsProject Tree.RangeProofsReload
   Tree.CompatTyped Tree.CompatHist1 Tree.CompatHist4 Tree.RangeProofsAttach Tree.RangeProofsAttachCopy
   Tree.Serialize Tree.Files Tree.ProjectCanon Tree.RangeProofsReloadFile Tree.RangeProofsCanon Tree.RangeProofsMoveSame
-  Tree.OrdHist Tree.OrdHistReal Tree.OrdFrame Tree.WorldCheck Tree.RangeProofsCheck Tree.RangeProofsApi Tree.RangeProofsApiReal Tree.RangeProofsShortFirst.
+  Tree.OrdHist Tree.OrdHistReal Tree.OrdFrame Tree.WorldCheck Tree.RangeProofsCheck Tree.RangeProofsApi Tree.RangeProofsApiReal Tree.RangeProofsShortFirst Tree.RangeProofsUnique.
 From AV Require Hash.HashRealElement Hash.HashRealAttr Hash.HashRealEnum.
 From AV Require Xml.Serializer Xml.StrictValidDef Xml.RoundTripFile.
 From AV Require Xml.Parser.
@@ -648,3 +648,34 @@ Proof. exact ordered_short_first. Qed.
    the type of the witness above) *)
 Theorem C07_named_nonseq_real : named_nonseq RT = [(1298, MChoice); (1923, MMixed)].
 Proof. exact named_nonseq_real. Qed.
+
+(* ------------------------------------------------------------------ make_unique_item_name and the length limit of SHORT-NAME *)
+(* [F witness] known finding C07 unique-name-exceeds-max-length, on the current tables, in a world built by the editing calls:
+   two SYSTEM elements named 'N' + 126 x 'a' (127 characters) in two packages; move_element_here of one beside the other
+   succeeds for every validator and renames it to <name>_1 — 129 characters, stored in the SHORT-NAME although the SHORT-NAME
+   specification allows 128 and check_value (what every setter applies) refuses exactly this value. *)
+Theorem C07_unique_name_too_long_refuted :
+  forall (tab_el tab_en : nametab) (check_fn : N -> list N -> res bool) (root_attrs : list (N * cdata)),
+  exists (w : world) (h mv : id) (w' : world) (nmv ns : node) (s : id) (nm : list N) (fn : N),
+    run_ops RT tab_el tab_en ok_check REAL_LATEST root_attrs long_ops (mkWorld (fun _ => None) 0 [] []) = Val w /\
+    e_move_element_here RT tab_en check_fn REAL_LATEST h mv w = Val (OK mv, w') /\
+    w_nodes w' mv = Some nmv /\ item_name RT nmv w' = Val (OK (Some nm), w') /\
+    nm = long_name ++ [95; 49] /\ List.length nm = 129%nat /\
+    n_content nmv = [CElem s] /\ w_nodes w' s = Some ns /\
+    chardata_spec RT (n_type ns) = Val (Some (CPattern fn (Some 128))) /\
+    check_value check_fn (DString nm) (CPattern fn (Some 128)) REAL_LATEST = Val false.
+Proof. exact unique_name_too_long. Qed.
+
+(* [U] the positive side: the generated name is the original name or original ++ "_" ++ decimal k (k >= 1); whenever
+   |original| + 1 + digits(k) is within the limit of the specification the length test of check_value passes, i.e. the
+   generated name is exactly as valid as the pattern validator judges it *)
+Theorem C07_unique_name_valid_when_short :
+  forall (T : tables) (check_fn : N -> list N -> res bool) (i : id) (m : N) (pp : list N) (w : world) (name : list N) (w' : world),
+  make_unique_item_name T i m pp w = Val (OK name, w') ->
+  exists n orig k,
+    w_nodes w i = Some n /\ item_name T n w = Val (OK (Some orig), w) /\
+    (name = orig \/ (1 <= k /\ name = orig ++ [95] ++ to_dec k)) /\
+    forall maxlen fn v,
+      N.of_nat (List.length orig) + 1 + N.of_nat (List.length (to_dec k)) <= maxlen ->
+      check_value check_fn (DString name) (CPattern fn (Some maxlen)) v = check_fn fn name.
+Proof. exact unique_name_valid_when_short. Qed.
